@@ -13,6 +13,7 @@
   share (0, secret) whatever n (theorem `split_k1`).
 -/
 import Buidl.Proofs.ShamirEndToEnd
+import Buidl.Proofs.RS1024Two
 namespace Buidl.Props.C15
 open Buidl Buidl.Mnemonic Buidl.Shamir Polynomial
 
@@ -323,13 +324,23 @@ theorem share_single_word_error (slip39 : WordList) (hwl : SLIP39? = some slip39
   rw [hwl] at h'; cases h'
   exact parse_single_word_error slip39 (by rw [tok.hlen]; decide) pre post w w' sh h hne
 
--- UNPROVED: two- and three-word errors are always detected
+/-- two wrong words are detected whenever they are at most 63 positions apart — hence at every pair of
+    positions of a 20- or 33-word share (26 / 39 values with the customization string).  Kernel computation
+    `two_check`: for 1 ≤ g ≤ 63 no non-zero XOR combination of `L^g(2^j)`, j < 10, is below 1024. -/
+theorem rs1024_two_errors_partial (cs : Bytes) (pre mid post : List Nat) (a a' b b' : Nat) (ha : a < 1024)
+    (ha' : a' < 1024) (hb : b < 1024) (hb' : b' < 1024) (hna : a ≠ a') (hmid : mid.length + 1 ≤ 63)
+    (hok : rs1024Verify cs (pre ++ a :: (mid ++ b :: post)) = true) :
+    rs1024Verify cs (pre ++ a' :: (mid ++ b' :: post)) = false :=
+  verify_two_errors cs pre mid post a a' b b' ha ha' hb hb' hna hmid hok
+
+-- UNPROVED: three-word errors are always detected, and two-word errors more than 63 positions apart
 --   (∀ idx idx', same length, 1 ≤ number of differing positions ≤ 3, all < 1024 →
 --      rs1024Verify cs idx = true → rs1024Verify cs idx' = false).
---   This is the minimum-distance-4 property of the Reed–Solomon code over GF(1024); Mathlib has no BCH/RS
---   distance theory and the finite check (≈ 10^9·len³ syndromes) is outside kernel reach.  Correspondence
---   only: every run substitutes 2 and 3 words in sampled share mnemonics (harness kinds corrupt2/corrupt3).
---   Proved part: `rs1024_single_error` (one word, every length).
+--   This is the minimum distance 4 of the Reed–Solomon code over GF(1024); Mathlib has no BCH/RS distance
+--   theory and the finite check for three errors (≈ 10^9 · len² syndromes) is outside kernel reach.
+--   Correspondence only: every run substitutes 3 words in sampled share mnemonics (harness kinds corrupt3,
+--   predicate corrupted_share_rejected).  Proved: `rs1024_single_error` (one word, every length) and
+--   `rs1024_two_errors_partial` (two words, every length occurring for shares).
 
 /-! ## extracted constants the model's literals stand for -/
 
